@@ -31,6 +31,11 @@ type tables struct {
 		ClosestK int  `json:"closestk"`
 		ClassK   int  `json:"classk"`
 	} `json:"big"`
+	Neg []struct {
+		K, D   int
+		IsPow2 bool `json:"ispow2"`
+		Ceil   int  `json:"ceil"`
+	} `json:"neg"`
 	Intervals []struct{ K int } `json:"intervals"`
 }
 
@@ -90,6 +95,14 @@ func TestVerifMathTables(t *testing.T) {
 			continue
 		}
 		one(n, b.IsPow2, 1<<uint(b.CeilK), 1<<uint(b.FloorK), closest)
+	}
+	// negative arguments down to the smallest int
+	for _, v := range tb.Neg {
+		n := -(1 << uint(v.K)) + v.D
+		one(n, v.IsPow2, v.Ceil, n, -1)
+	}
+	if len(tb.Neg) == 0 {
+		t.Fatal("no negative vectors in the table")
 	}
 	// interval table: Ceil = 2^k on (2^(k-1), 2^k]; Floor = 2^k on [2^k, 2^(k+1));
 	// Closest = 2^k on [2^k - 2^(k-2), 2^k + 2^(k-1)) (the tie 2^(k-1)+2^(k-2) goes up)
